@@ -21,6 +21,11 @@ from dask_expr._repartition import Repartition
 BlockwiseDep = namedtuple(typename="BlockwiseDep", field_names=["iterable"])
 
 
+def _resample_meta(frame, rule, kwargs, how, how_args, how_kwargs):
+    resample = meta_nonempty(frame._meta).resample(rule, **kwargs or {})
+    return make_meta(getattr(resample, how)(*how_args, **how_kwargs or {}))
+
+
 class ResampleReduction(Expr):
     _parameters = [
         "frame",
@@ -48,9 +53,9 @@ class ResampleReduction(Expr):
 
     @functools.cached_property
     def _meta(self):
-        resample = meta_nonempty(self.frame._meta).resample(self.rule, **self.kwargs)
-        meta = getattr(resample, self.how)(*self.how_args, **self.how_kwargs or {})
-        return make_meta(meta)
+        return _resample_meta(
+            self.frame, self.rule, self.kwargs, self.how, self.how_args, self.how_kwargs
+        )
 
     @functools.cached_property
     def kwargs(self):
@@ -106,7 +111,10 @@ class ResampleAggregation(Blockwise):
 
     @functools.cached_property
     def _meta(self):
-        return self.frame._meta
+        # like ResampleReduction: the aggregation decides on dtypes and labels
+        return _resample_meta(
+            self.frame, self.rule, self.kwargs, self.how, self.how_args, self.how_kwargs
+        )
 
     def _divisions(self):
         # The output divisions (the labels of the bins), not the divisions of
